@@ -115,6 +115,17 @@ CHECKS["C05"] = dict(
     design="DESIGN.md §5 C05",
     technique="Coq proof (statement-list induction, dictionary last-wins lemma, literal negation lemma) + differential correspondence + expanded-file oracle")
 
+CHECKS["C03"] = dict(
+    text=("Theorems over the model of the CDecay pass (Lark visitor with write-back cache into the shared ChargeConj dictionary, "
+          "daughters line by line then the mother): under well-formed ChargeConj pairs the pass appends, for every CDecay X without "
+          "its own Decay table whose conjugate (ChargeConj read both ways, else the regenerated database conjugation) has a table, "
+          "exactly the line-by-line conjugate (same order, bf, PHOTOS, model, parameters; every daughter and the mother conjugated "
+          "by the same rule), leaves all existing tables untouched, adds nothing without a source; Decay takes precedence; switch "
+          "off adds nothing; conjugation is involutive unless marked unknown. Cache invariant proved for any number of tables / "
+          "lines / daughters. PARTIAL front end as C01."),
+    design="DESIGN.md §5 C03",
+    technique="Coq proof (invariant over the growing conjugation cache, instantiated with the regenerated particle tables) + differential correspondence through the real parser")
+
 NOT_YET = {
 }
 
